@@ -1,6 +1,24 @@
 """C05 (MAC family: MacTrace.tla)."""
-from . import macfam, core
+from . import macfam, core, purefn
+import glob, os
 PID = "C05"
+
+
+def arithmetic(rep, wd):
+    """all 65536 wire values for each recorded `last`, against Mac!NextFcnt (hook verif_next_fcnt_down)"""
+    d = os.path.join(wd, "fcnt")
+    os.makedirs(d, exist_ok=True)
+    out = core.run_vh("fcnt", d, shards=core.NCPU)
+    n = core.kv(out)["events"]
+    traces = sorted(glob.glob(os.path.join(d, "fcnt.*.ndjson")))
+    res, bad = purefn.validate(PID + "-fcnt", "FcntTrace.tla", "FcntTrace.cfg", traces)
+    for tr, ln, ev, mm in bad[:10]:
+        rep.violation({"property": PID, "kind": "fcnt", "event": purefn.trim(ev), "mismatch": [m[:500] for m in mm[:3]]},
+                      f"counter reconstruction differs from Mac!NextFcnt for last={ev['last']}: {mm[0][:200]}")
+    st, gen, acc = purefn.totals(res)
+    return {"_states": st, "_transitions": gen, "_evaluations": n * 65536, "_distinct": n * 65536,
+            "arithmetic": {"last_values": n, "wire_values_each": 65536, "traces_accepted": acc,
+                           "rule": "last in {None} + boundary classes (0, 16384, 0xFFFF, 0x10000, 0x7FFFFFFF, 0x80000000, 0xFFFF0000, 0xFFFFBFFF, 2^32-1) +- offsets + random; every wire value 0..65535"}}
 
 
 def run():
@@ -8,7 +26,7 @@ def run():
     return macfam.run(PID, [f"hist={40 if t else 4}", f"steps={70 if t else 45}", "profile=fcnt"],
         "downlink accepted/rejected differently from 'authentic and fresh'",
         'seeded random histories (9 regions x nb/async/async+ClassC) dominated by downlinks of every class: fresh (gaps 1, 2..200, 16384), replayed, stale, far-future (gap > 16384), bit-flipped, foreign-key, other-address, random, oversize; Codec.tla decides authenticity, Mac!NextFcnt freshness; every delivery, counter advance, response and queued answer is compared',
-        macfam.COMMON_ASSUMPTIONS, mc=[("MCFcnt.tla", "MCFcnt.cfg", {"workers": 4})])
+        macfam.COMMON_ASSUMPTIONS, mc=[("MCFcnt.tla", "MCFcnt.cfg", {"workers": 4})], extra=[arithmetic])
 
 
 def replay(path):
